@@ -806,6 +806,7 @@ Definition op_good (o : op) : Prop :=
   | ORegister _ ds => forall d, In d ds -> good K d
   | OUnregister ds => forall d, In d ds -> good K d
   | OGather => True
+  | OMust cs => forall c, In c cs -> forall d, In d (snd c) -> good K d
   end.
 
 Definition obs_matches (o : obs) (t : sobs) : Prop :=
@@ -819,12 +820,25 @@ Definition obs_matches (o : obs) (t : sobs) : Prop :=
 Lemma sres_eqb_refl a : sres_eqb a a = true.
 Proof. destruct a; simpl; try reflexivity. apply Z.eqb_refl. Qed.
 
+Lemma must_step : forall cs r s, Inv r s -> (forall c, In c cs -> forall d, In d (snd c) -> good K d) ->
+  classify (fst (must_register hash r cs)) = fst (spec_must s cs) /\
+  must_kind_ok s cs (fst (must_register hash r cs)) = true /\
+  Inv (snd (must_register hash r cs)) (snd (spec_must s cs)).
+Proof.
+  induction cs as [|c cs IH]; intros r s I G; simpl; [auto|].
+  destruct (register_step r s (fst c) (snd c) I (G c (or_introl eq_refl))) as (H1 & H2 & H3).
+  destruct (register hash r (fst c) (snd c)) as [e r'], (spec_register s (fst c) (snd c)) as [se s'] eqn:Es.
+  simpl in H1, H2, H3.
+  destruct e; simpl in H1; subst se; simpl; auto.
+  apply IH; [exact H3|]. intros c0 Hc0. apply G. right; exact Hc0.
+Qed.
+
 Lemma step_ok r s o : Inv r s -> op_good o ->
   obs_ok s o (fst (step hash r o)) = true /\
   obs_matches (fst (step hash r o)) (fst (spec_step s o)) /\
   Inv (snd (step hash r o)) (snd (spec_step s o)).
 Proof.
-  intros I G. destruct o as [cid ds|ds|]; simpl in *.
+  intros I G. destruct o as [cid ds|ds| |cs]; simpl in *.
   - destruct (register_step r s cid ds I G) as (H1 & H2 & H3).
     destruct (register hash r cid ds) as [e r'], (spec_register s cid ds) as [se s'] eqn:Es. simpl in *.
     rewrite H1, H2, sres_eqb_refl. auto.
@@ -834,6 +848,9 @@ Proof.
   - split; [|split; [|exact I]].
     + apply seteq_strs_spec. apply gather_names_spec. exact I.
     + apply gather_names_spec. exact I.
+  - destruct (must_step cs r s I G) as (H1 & H2 & H3).
+    destruct (must_register hash r cs) as [e r'], (spec_must s cs) as [se s'] eqn:Es. simpl in *.
+    rewrite H1, H2, sres_eqb_refl. auto.
 Qed.
 
 Lemma run_ok : forall ops r s, Inv r s -> Forall op_good ops ->
@@ -859,7 +876,7 @@ Lemma built_wf d : built d -> desc_wf d.
 Proof. induction 1; [apply new_desc_wf|apply invalid_desc_wf|apply wrap_desc_wf; assumption]. Qed.
 
 Definition op_descs (o : op) : list desc :=
-  match o with ORegister _ ds => ds | OUnregister ds => ds | OGather => [] end.
+  match o with ORegister _ ds => ds | OUnregister ds => ds | OGather => [] | OMust cs => flat_map snd cs end.
 Definition all_descs (ops : list op) : list desc := flat_map op_descs ops.
 (* the byte strings that are hashed anywhere in the history *)
 Definition keys_of (ops : list op) : list str :=
@@ -883,6 +900,7 @@ Proof.
     split; [apply Hk; simpl; auto|]. split; [apply Hk; simpl; auto|].
     unfold ops_unambiguous in U. rewrite forallb_forall in U. specialize (U d Hall). rewrite Ed in U. exact U. }
   destruct o; simpl in *; auto.
+  intros c Hc d Hd. apply H. apply in_flat_map. exists c. auto.
 Qed.
 
 Lemma register_spec_lemma : forall (hash : str -> str) (ops : list op),
@@ -1193,6 +1211,7 @@ Definition op_equiv (o o' : op) : Prop :=
   | ORegister c ds, ORegister c' ds' => c = c' /\ ds_equiv ds ds'
   | OUnregister ds, OUnregister ds' => ds_equiv ds ds'
   | OGather, OGather => True
+  | OMust cs, OMust cs' => Forall2 creq cs cs'
   | _, _ => False
   end.
 Definition sobs_same (t t' : sobs) : Prop :=
@@ -1212,11 +1231,27 @@ Definition obs_same (o o' : obs) : Prop :=
   | _, _ => False
   end.
 
+Lemma spec_must_equiv : forall cs cs', Forall2 creq cs cs' -> forall s s', sequiv s s' ->
+  fst (spec_must s cs) = fst (spec_must s' cs') /\ sequiv (snd (spec_must s cs)) (snd (spec_must s' cs')).
+Proof.
+  induction 1 as [|c c' cs cs' Hc Hcs IH]; intros s s' Hs; simpl; [auto|].
+  destruct Hc as [Hf Hd]. rewrite <- Hf.
+  destruct (spec_register_equiv s s' (fst c) (snd c) (snd c') Hs Hd) as [E1 E2].
+  destruct (spec_register s (fst c) (snd c)) as [e t], (spec_register s' (fst c) (snd c')) as [e' t']. simpl in *.
+  subst e'. destruct e; simpl; auto.
+Qed.
+
+Lemma flat_map_snd_equiv cs cs' : Forall2 creq cs cs' -> ds_equiv (flat_map snd cs) (flat_map snd cs').
+Proof.
+  induction 1 as [|c c' cs cs' Hc Hcs IH]; simpl; [intros d; tauto|].
+  apply ds_equiv_app; [exact (proj2 Hc)|exact IH].
+Qed.
+
 Lemma spec_run_equiv : forall ops ops', Forall2 op_equiv ops ops' -> forall s s', sequiv s s' ->
   Forall2 sobs_same (spec_run_from s ops) (spec_run_from s' ops').
 Proof.
   induction 1 as [|o o' ops ops' Ho Hops IH]; intros s s' Hs; simpl; [constructor|].
-  destruct o as [c ds|ds|], o' as [c' ds'|ds'|]; simpl in Ho; try contradiction.
+  destruct o as [c ds|ds| |cs], o' as [c' ds'|ds'| |cs0]; simpl in Ho; try contradiction.
   - destruct Ho as [<- Hd]. destruct (spec_register_equiv s s' c ds ds' Hs Hd) as [E1 E2]. simpl.
     destruct (spec_register s c ds) as [e t], (spec_register s' c ds') as [e' t']. simpl in *.
     constructor; [exact E1|apply IH; exact E2].
@@ -1224,6 +1259,9 @@ Proof.
     destruct (spec_unregister s ds) as [e t], (spec_unregister s' ds') as [e' t']. simpl in *.
     constructor; [exact E1|apply IH; exact E2].
   - simpl. constructor; [exact (spec_names_equiv s s' Hs)|apply IH; exact Hs].
+  - destruct (spec_must_equiv cs cs0 Ho s s' Hs) as [E1 E2]. simpl.
+    destruct (spec_must s cs) as [e t], (spec_must s' cs0) as [e' t']. simpl in *.
+    constructor; [exact E1|apply IH; exact E2].
 Qed.
 
 Lemma compose3 : forall a b, Forall2 obs_matches a b -> forall c d,
@@ -1241,7 +1279,8 @@ Lemma all_descs_equiv ops ops' : Forall2 op_equiv ops ops' -> ds_equiv (all_desc
 Proof.
   induction 1 as [|o o' ops ops' Ho Hops IH]; [intros d; tauto|].
   unfold all_descs. simpl. apply ds_equiv_app; [|exact IH].
-  destruct o, o'; simpl in Ho; try contradiction; simpl; try tauto. intros d; tauto.
+  destruct o, o'; simpl in Ho; try contradiction; simpl; try tauto; [intros d; tauto|].
+  apply flat_map_snd_equiv. exact Ho.
 Qed.
 
 Lemma register_order_multiplicity_insensitive_lemma : forall (hash : str -> str) (ops ops' : list op),
@@ -1264,6 +1303,12 @@ Proof.
   eapply compose3; [exact M1| |exact M2].
   apply spec_run_equiv; [exact E|]. split; [constructor|]. split; [intros d; tauto|reflexivity].
 Qed.
+
+(* MustRegister stops at the first rejected collector: p_n (collector 3) is not registered *)
+Lemma must_register_example_lemma :
+  run hash_id [ORegister 0 [ex_a]; OMust [(1, [ex_n]); (2, [ex_a]); (3, [ex_w])]; OGather; ORegister 3 [ex_w]] =
+  [BReg RNil; BReg (RAlready 0); BGather [[109]; [110]]; BReg RNil].
+Proof. vm_compute; reflexivity. Qed.
 
 (* which of "invalid" / "inconsistent" is reported does depend on the emission order (first offender wins) *)
 Lemma error_kind_order_dependent_lemma :
